@@ -196,6 +196,8 @@ type env struct {
 	alias    map[types.Object]ast.Expr // decode helpers: `raw := b.ReadX(n)` used once in the returned expression
 	inHelper bool                      // translating the body of an inlined library function
 	copies   []string                  // field-path prefixes a by-value parameter / receiver stands for: assignments through them are lost
+	depth    int                       // nesting of inlined integer helpers
+	errOnly  bool                      // the inlined helper returns only an error: `return err` after the hex check, `return nil` at the end
 	parent   *env                      // tables: the environment of the caller whose values the parameters stand for
 }
 
@@ -367,6 +369,25 @@ func (w *world) intExpr(e *env, x ast.Expr) (string, bool) {
 				}
 			}
 		}
+		// p.bodyLength() / fixedPart(p.N): a library function or method whose body is `return <integer expression>`
+		if e.depth < 4 {
+			if fd, ne, ok := w.bindCall(e, v); ok && len(fd.Body.List) == 1 && ne.writer == nil && ne.reader == nil {
+				if ret, ok := fd.Body.List[0].(*ast.ReturnStmt); ok && len(ret.Results) == 1 {
+					ne.depth = e.depth + 1
+					if inner, ok := w.intExpr(ne, ret.Results[0]); ok {
+						if rt := e.info.TypeOf(x); uintBytes(rt) > 0 {
+							return fmt.Sprintf("(.conv %d %s)", uintBytes(rt), inner), true
+						} else if isInt(rt) {
+							return inner, true
+						}
+					}
+				}
+			}
+		}
+	case *ast.StarExpr:
+		if p, ok := w.fieldPath(e, x); ok && uintBytes(e.info.TypeOf(x)) > 0 {
+			return fmt.Sprintf("(.fld %s)", q(p)), true
+		}
 	case *ast.BinaryExpr:
 		if v.Op == token.ADD || v.Op == token.MUL {
 			a, ok1 := w.intExpr(e, v.X)
@@ -446,6 +467,39 @@ func constInt(e *env, x ast.Expr) (int64, bool) {
 		return n, exact
 	}
 	return 0, false
+}
+
+// ptrList: `p.counters()` where the method is `return [N]*T{&p.A, &p.B, …}` (or a slice literal): the fields pointed to
+func (w *world) ptrList(e *env, x ast.Expr) ([]string, bool) {
+	c, ok := unparen(x).(*ast.CallExpr)
+	if !ok {
+		return nil, false
+	}
+	fd, ne, ok := w.bindCall(e, c)
+	if !ok || len(fd.Body.List) != 1 || len(ne.copies) > 0 {
+		return nil, false
+	}
+	ret, ok := fd.Body.List[0].(*ast.ReturnStmt)
+	if !ok || len(ret.Results) != 1 {
+		return nil, false
+	}
+	cl, ok := unparen(ret.Results[0]).(*ast.CompositeLit)
+	if !ok || len(cl.Elts) == 0 {
+		return nil, false
+	}
+	var ps []string
+	for _, el := range cl.Elts {
+		u, ok := unparen(el).(*ast.UnaryExpr)
+		if !ok || u.Op != token.AND {
+			return nil, false
+		}
+		p, ok := w.fieldPath(ne, u.X)
+		if !ok {
+			return nil, false
+		}
+		ps = append(ps, p)
+	}
+	return ps, true
 }
 
 // lostWrites: does any of the operations assign a field through a by-value copy (the real code would lose it)?
@@ -876,6 +930,35 @@ func (w *world) encStmt(e *env, s ast.Stmt, out *encOut) {
 			}
 		}
 	case *ast.IfStmt:
+		// if err := writeHexID(b, d.MsgID); err != nil { return nil, err }: a helper that writes or refuses
+		if a, ok := st.Init.(*ast.AssignStmt); ok && st.Else == nil && a.Tok == token.DEFINE && len(a.Lhs) == 1 && len(a.Rhs) == 1 && len(st.Body.List) == 1 {
+			if c, ok := unparen(a.Rhs[0]).(*ast.CallExpr); ok {
+				errObj := e.info.ObjectOf(a.Lhs[0].(*ast.Ident))
+				if b, ok := unparen(st.Cond).(*ast.BinaryExpr); ok && b.Op == token.NEQ && isObj(e, b.X, errObj) {
+					if nl, ok := unparen(b.Y).(*ast.Ident); ok && nl.Name == "nil" {
+						if r, ok := st.Body.List[0].(*ast.ReturnStmt); ok && len(r.Results) == 2 && isObj(e, r.Results[1], errObj) {
+							if n0, ok := unparen(r.Results[0]).(*ast.Ident); ok && n0.Name == "nil" {
+								if fd, ne, ok := w.bindCall(e, c); ok && ne.writer != nil && fd.Type.Results != nil && len(fd.Type.Results.List) == 1 {
+									ne.errOnly = true
+									var tmp encOut
+									w.encStmts(ne, fd.Body.List, &tmp)
+									good := !lostWrites(ne, tmp.ops, true) && tmp.fin == ".errNil"
+									for _, o := range tmp.ops {
+										if strings.HasPrefix(o, ".unsupported") {
+											good = false
+										}
+									}
+									if good {
+										out.ops = append(out.ops, tmp.ops...)
+										return
+									}
+								}
+							}
+						}
+					}
+				}
+			}
+		}
 		// if err != nil { return nil, err } right after the hex decoding
 		if st.Init == nil && st.Else == nil && len(st.Body.List) == 1 {
 			if b, ok := unparen(st.Cond).(*ast.BinaryExpr); ok && b.Op == token.NEQ {
@@ -886,6 +969,10 @@ func (w *world) encStmt(e *env, s ast.Stmt, out *encOut) {
 								delete(e.locals, e.info.ObjectOf(id))
 								return
 							}
+						}
+						if r, ok := st.Body.List[0].(*ast.ReturnStmt); ok && e.errOnly && len(r.Results) == 1 && isObj(e, r.Results[0], e.info.ObjectOf(id)) {
+							delete(e.locals, e.info.ObjectOf(id))
+							return
 						}
 					}
 				}
@@ -937,6 +1024,19 @@ func (w *world) encStmt(e *env, s ast.Stmt, out *encOut) {
 			}
 		}
 	case *ast.RangeStmt:
+		// for _, c := range p.counters() { b.WriteUint32(*c) }: a method returning [N]*T{&p.A, &p.B, …}, unrolled
+		if ps, ok := w.ptrList(e, st.X); ok && st.Value != nil && st.Tok == token.DEFINE {
+			if key, ok := st.Key.(*ast.Ident); ok && key.Name == "_" {
+				var tmp encOut
+				for _, fp := range ps {
+					ne := e.clone()
+					ne.paths[e.info.ObjectOf(st.Value.(*ast.Ident))] = fp
+					w.encStmts(ne, st.Body.List, &tmp)
+				}
+				out.ops = append(out.ops, tmp.ops...)
+				return
+			}
+		}
 		// for _, part := range h.Sequence { buf.WriteUint32(part) } over a fixed-size array: unrolled
 		if n, elemT, isArr := arrayLen(e.info.TypeOf(st.X)); isArr && st.Value != nil && len(st.Body.List) == 1 {
 			if key, ok := st.Key.(*ast.Ident); ok && key.Name == "_" {
@@ -1029,6 +1129,12 @@ func (w *world) encStmt(e *env, s ast.Stmt, out *encOut) {
 			}
 		}
 	case *ast.ReturnStmt:
+		if e.errOnly && len(st.Results) == 1 {
+			if id, ok := unparen(st.Results[0]).(*ast.Ident); ok && id.Name == "nil" {
+				out.fin = ".errNil"
+				return
+			}
+		}
 		if len(st.Results) == 1 {
 			if c, ok := st.Results[0].(*ast.CallExpr); ok {
 				if fn, recv := w.callee(e, c); fn != nil && recv != nil && isObj(e, recv, e.writer) {
@@ -1435,7 +1541,17 @@ func (w *world) decStmt(e *env, s ast.Stmt, out *decOut) {
 						}
 						conj = append(conj, unparen(x))
 					}
-					flat(st.Cond)
+					ce := e // the environment the condition is read in
+					cond := st.Cond
+					if cc, ok := unparen(cond).(*ast.CallExpr); ok {
+						// if bodyOmitted(p.Header, b) { return nil }: the condition moved into a helper that returns it
+						if fd, ne, ok := w.bindCall(e, cc); ok && ne.reader != nil && len(fd.Body.List) == 1 {
+							if hr, ok := fd.Body.List[0].(*ast.ReturnStmt); ok && len(hr.Results) == 1 {
+								ce, cond = ne, hr.Results[0]
+							}
+						}
+					}
+					flat(cond)
 					field, noErr, atEnd, other := "", false, false, false
 					for _, c := range conj {
 						b, ok := c.(*ast.BinaryExpr)
@@ -1443,18 +1559,18 @@ func (w *world) decStmt(e *env, s ast.Stmt, out *decOut) {
 							other = true
 							continue
 						}
-						zero := func(x ast.Expr) bool { n, ok := constInt(e, x); return ok && n == 0 }
+						zero := func(x ast.Expr) bool { n, ok := constInt(ce, x); return ok && n == 0 }
 						isNil := func(x ast.Expr) bool { id, ok := unparen(x).(*ast.Ident); return ok && id.Name == "nil" }
 						switch {
 						case b.Op == token.NEQ && zero(b.Y):
-							if p, ok := w.fieldPath(e, b.X); ok && uintBytes(e.info.TypeOf(b.X)) > 0 && field == "" {
+							if p, ok := w.fieldPath(ce, b.X); ok && uintBytes(ce.info.TypeOf(b.X)) > 0 && field == "" {
 								field = p
 							} else {
 								other = true
 							}
-						case b.Op == token.EQL && isNil(b.Y) && w.isReaderCall(e, b.X, "Error"):
+						case b.Op == token.EQL && isNil(b.Y) && w.isReaderCall(ce, b.X, "Error"):
 							noErr = true
-						case b.Op == token.EQL && zero(b.Y) && w.isReaderCall(e, b.X, "Remaining"):
+						case b.Op == token.EQL && zero(b.Y) && w.isReaderCall(ce, b.X, "Remaining"):
 							atEnd = true
 						default:
 							other = true
@@ -1608,6 +1724,21 @@ func (w *world) decStmt(e *env, s ast.Stmt, out *decOut) {
 			}
 		}
 	case *ast.RangeStmt:
+		// for _, c := range p.counters() { *c = b.ReadUint32() }
+		if ps, ok := w.ptrList(e, st.X); ok && st.Value != nil && st.Tok == token.DEFINE {
+			if key, ok := st.Key.(*ast.Ident); ok && key.Name == "_" {
+				var tmp decOut
+				for _, fp := range ps {
+					ne := e.clone()
+					ne.paths[e.info.ObjectOf(st.Value.(*ast.Ident))] = fp
+					w.decStmts(ne, st.Body.List, &tmp)
+				}
+				if tmp.ret == "" && !tmp.readerErrReturned {
+					out.ops = append(out.ops, tmp.ops...)
+					return
+				}
+			}
+		}
 		// for i := range h.Sequence { h.Sequence[i] = r.ReadUint32() } over a fixed-size array: unrolled
 		if n, elemT, isArr := arrayLen(e.info.TypeOf(st.X)); isArr && st.Value == nil && st.Key != nil && st.Tok == token.DEFINE && len(st.Body.List) == 1 {
 			if lp, ok := w.fieldPath(e, st.X); ok {
@@ -1692,10 +1823,17 @@ func (w *world) decStmt(e *env, s ast.Stmt, out *decOut) {
 				}
 				// return finish(b): a helper that only hands back the reader's verdict (and may release the reader)
 				if e.reader != nil {
-					if fd, ne, ok := w.bindCall(e, c); ok && ne.reader != nil && len(c.Args) == 1 {
+					if fd, ne, ok := w.bindCall(e, c); ok && ne.reader != nil {
 						var tmp decOut
 						w.decStmts(ne, fd.Body.List, &tmp)
-						if len(tmp.ops) == 0 && tmp.ret != "" && !tmp.readerErrReturned {
+						bad := lostWrites(ne, tmp.ops, false)
+						for _, o := range tmp.ops {
+							if strings.HasPrefix(o, ".unsupported") {
+								bad = true
+							}
+						}
+						if !bad && tmp.ret != "" {
+							out.ops = append(out.ops, tmp.ops...)
 							out.ret = tmp.ret
 							return
 						}
@@ -1840,8 +1978,8 @@ func (w *world) inlineReadHeader(fn *types.Func, prefix string) ([]string, bool)
 				}
 			}
 			return nil, false
-		case *ast.RangeStmt:
-			w.decStmt(e, s, &out)
+		case *ast.RangeStmt, *ast.ExprStmt:
+			w.decStmt(e, s, &out) // incl. h.readFrom(r): a method of the header that reads into it
 		default:
 			return nil, false
 		}
